@@ -263,6 +263,75 @@ def closure_captures(P, parent, closure):
     return {}
 
 
+OPTION_ARG_COMBINATORS = ("map", "and_then", "map_or", "map_or_else", "filter", "is_some_and", "inspect", "for_each", "take_while",
+                          "skip_while", "any", "all", "find", "position", "filter_map", "flat_map")
+
+
+def closure_bindings(P, closure, depth=0):
+    """what a closure body's captured variables and its first argument stand for, in terms of the function that (transitively)
+    created it: ({capture index: expr}, {parameter local: expr}).  `opt.map(|x| ..)` binds x to the payload of `opt`."""
+    if "::{closure#" not in closure.path or depth > 4:
+        return {}, {}
+    ppath = closure.path.rsplit("::{closure#", 1)[0]
+    parent = P.bodies.get("%s::%s" % (closure.crate, ppath))
+    if parent is None:
+        return {}, {}
+    O = X.Origins(parent, P)
+    caps, params = {}, {}
+    for bb, j, st in parent.all_statements():
+        if st["k"] == "assign" and st["rv"]["k"] == "agg" and st["rv"].get("ak") == "closure" and st["rv"]["def"] == closure.path:
+            caps = {i: O.operand(o, bb, j) for i, o in enumerate(st["rv"]["ops"])}
+    for cs in parent.calls():
+        args = O.call_args(cs)
+        for i, a in enumerate(args):
+            if i > 0 and a[0] == "agg" and a[1] == "closure" and a[2] == closure.path and cs.name in OPTION_ARG_COMBINATORS:
+                recv = args[0]
+                ty = (cs.term.get("argtys") or [""])[0]
+                if "Option<" in ty.split("::")[-1] or "option::Option" in ty:
+                    params[2] = X.some_payload(recv)
+    if "::{closure#" in parent.path:
+        pc, pp = closure_bindings(P, parent, depth + 1)
+
+        def up(e):
+            marked = substitute_params_by_index(e, {i: ("bound", x) for i, x in pp.items()})
+            out = resolve_upvars(marked, pc)
+
+            def unmark(z):
+                if not isinstance(z, tuple) or not z:
+                    return z
+                if z[0] == "bound":
+                    return z[1]
+                return tuple(unmark(x) if isinstance(x, tuple) else x for x in z)
+            return unmark(out)
+        caps = {i: up(e) for i, e in caps.items()}
+        params = {i: up(e) for i, e in params.items()}
+    return caps, params
+
+
+def substitute_params_by_index(ex, binding):
+    if not isinstance(ex, tuple) or not ex:
+        return ex
+    if ex[0] == "param" and ex[1] in binding:
+        return binding[ex[1]]
+    return tuple(substitute_params_by_index(x, binding) if isinstance(x, tuple) else x for x in ex)
+
+
+def in_root_terms(P, closure, ex):
+    """an origin expression of a closure body rewritten over the values of the function that created the closure"""
+    caps, params = closure_bindings(P, closure)
+    # the closure's own parameters first (they are in the closure's terms), then its captures (which bring in the creator's)
+    marked = substitute_params_by_index(ex, {i: ("bound", e) for i, e in params.items()})
+    out = resolve_upvars(marked, caps)
+
+    def unmark(e):
+        if not isinstance(e, tuple) or not e:
+            return e
+        if e[0] == "bound":
+            return e[1]
+        return tuple(unmark(x) if isinstance(x, tuple) else x for x in e)
+    return unmark(out)
+
+
 def resolve_upvars(ex, caps):
     """replaces ('upvar', i, name) leaves by the captured origins"""
     if not isinstance(ex, tuple) or not ex:
@@ -307,7 +376,7 @@ def positional(ex):
 class FnFacts:
     """comparison boundaries, codec calls and literal arithmetic of one function including its closures"""
 
-    def __init__(self, program, body, include_closures=True):
+    def __init__(self, program, body, include_closures=True, follow_helpers=True):
         self.body = body
         self.cmps = {}      # "lhs|rhs|kind|boundary" -> [Cmp]
         self.calls = {}     # "method(p=d, …)" -> [CallSite]
@@ -349,6 +418,50 @@ class FnFacts:
                 if st["k"] == "assign" and st["rv"]["k"] == "agg" and st["rv"].get("ak") == "adt":
                     rv = st["rv"]
                     self.aggs.setdefault("%s::%s" % (rv["adt"].split("::")[-1], rv["variant"]), []).append(span_loc(st["sp"]))
+            if follow_helpers:
+                self._merge_helpers(program, b, O)
+
+    def _merge_helpers(self, program, b, O):
+        """facts of private free helper functions of the same file that `b` calls (one level), over b's own values: what an
+        `extract function` refactoring moved out of `b` still counts as done by `b`"""
+        for cs in b.calls():
+            if cs.fn is None or not cs.is_local or cs.trait or cs.fn.get("kind") not in ("Fn", "AssocFn"):
+                continue
+            t = program.resolve_callee(b.crate, cs)
+            if t is None or t.key == self.body.key or t.file != b.file or t.def_kind not in ("Fn", "AssocFn"):
+                continue
+            if (t.impl_trait or ""):
+                continue
+            pargs = [positional(a) for a in O.call_args(cs)]
+            pn = t.param_names()
+            sub = {pn[i + 1]: a for i, a in enumerate(pargs) if pn.get(i + 1)}
+            Ot = X.Origins(t, program)
+            for c2 in t.calls():
+                if c2.fn is None:
+                    continue
+                a2 = [substitute(x, sub) for x in Ot.call_args(c2)]
+                d = codec_call_desc(program, c2, a2, ALL)
+                if d is not None:
+                    self.calls.setdefault("%s(%s)" % (d[0], ", ".join("%s=%s" % kv for kv in d[1])), []).append(c2)
+                nm = X.short(c2.callee)
+                if nm in ("cmp::min", "cmp::max"):
+                    nm = "Ord::" + nm[5:]
+                self.allcalls.setdefault("%s(%s)" % (nm, ", ".join(F.rd(x) for x in a2)), []).append(c2)
+            for (op, c, pos), locs in F.const_ops(t, Ot).items():
+                self.constops.setdefault("%s %d" % (op, c), []).extend(locs)
+            for c in F.comparisons(t, Ot):
+                if c.lex is None:
+                    continue
+                c2 = F.normalise_cmp("Lt", substitute(c.lex, sub), substitute(c.rex, sub) if c.rex is not None else ("const", 0, "usize", None))
+                if c2 is None:
+                    continue
+                same = c.rex is None or ((F.rd(c2.lex) <= F.rd(c2.rex)) == (c.lhs <= c.rhs))
+                c2.kind = c.kind
+                c2.boundary = c.boundary if same else ((-c.boundary + 1) if c.kind == "b" else -c.boundary)
+                if c.rex is None:
+                    c2.rex, c2.rhs = None, ""
+                c2.validating, c2.switch_bb, c2.loc, c2.raw, c2.op, c2.dest, c2.nop = c.validating, None, c.loc, c.raw, c.op, None, c.nop
+                self.cmps.setdefault(cmp_key_positional(c2), []).append(c2)
 
 
 class _All:
